@@ -10,6 +10,7 @@ import (
 	"math/big"
 	"sort"
 	"strings"
+	"verifharness/pgmem"
 
 	"github.com/ethereum/go-ethereum/common"
 	triggerreg "github.com/shutter-network/contracts/v2/bindings/shuttereventtriggerregistryv1"
@@ -285,6 +286,8 @@ func runCase(env *vlib.Env, idx int, rep *vlib.Reporter) {
 		partition{"detour-over-abandoned-fork", 10_000, randomJumps(), true},
 		partition{"random-jumps-with-rpc-faults", 10_000, randomJumps(), false},
 		partition{"range=" + fmt.Sprint([]uint64{2, 3, 7}[r.Intn(3)]) + "-with-rpc-faults", 0, randomJumps(), false},
+		partition{"random-jumps-with-db-faults", 10_000, randomJumps(), false},
+		partition{"range=" + fmt.Sprint([]uint64{2, 3, 7}[r.Intn(3)]) + "-with-db-faults", 0, randomJumps(), false},
 	)
 	for i := range parts {
 		if parts[i].maxRange == 0 {
@@ -306,6 +309,25 @@ func runCase(env *vlib.Env, idx int, rep *vlib.Reporter) {
 		_ = chain.NumCalls()
 		pos := start
 		detail := map[string]any{"partition": p.name, "chain": shape, "start": start, "length": length}
+		dbFaulty := strings.HasSuffix(p.name, "with-db-faults")
+		dbFailed := 0
+		if dbFaulty {
+			// statements of the syncer's transactions fail at seeded round trips (the transaction is
+			// rolled back); a failed Sync is retried with the same head
+			fr := vlib.NewRng(env.Seed, 1617, uint64(idx), uint64(len(p.name)))
+			var faults []pgmem.Fault
+			at := 5
+			for i := 0; i < 40; i++ {
+				at += 2 + fr.Intn(25)
+				faults = append(faults, pgmem.Fault{At: at, Kind: pgmem.FailStatement})
+			}
+			node.DB.SetFaultPlan("p", &pgmem.FaultPlan{Faults: faults})
+			node.DB.SetTrace(func(ev pgmem.TraceEvent) {
+				if ev.Err != "" {
+					dbFailed++
+				}
+			})
+		}
 		faulty := strings.HasSuffix(p.name, "with-rpc-faults")
 		injected, lastFailed := 0, -2
 		if faulty {
@@ -333,6 +355,15 @@ func runCase(env *vlib.Env, idx int, rep *vlib.Reporter) {
 				}
 				if serr == nil {
 					return true
+				}
+				if dbFaulty && dbFailed > 0 {
+					dbFailed = 0
+					rep.Obs("sync_calls_failed_by_injected_db_fault", 1)
+					if attempt > 200 {
+						rep.Inconclusive("Sync did not get through 200 attempts under injected database faults")
+						return false
+					}
+					continue
 				}
 				if injected == before {
 					rep.Violationf("sync-error", detail, "Sync failed without an injected fault: %v", serr)
@@ -473,6 +504,9 @@ func runCase(env *vlib.Env, idx int, rep *vlib.Reporter) {
 			fam := strings.SplitN(p.name, "=", 2)[0]
 			if strings.HasSuffix(p.name, "with-rpc-faults") {
 				fam += "-with-rpc-faults"
+			}
+			if strings.HasSuffix(p.name, "with-db-faults") {
+				fam += "-with-db-faults"
 			}
 			rep.Violationf("not-fired:"+fam, detail, "trigger %s (registered %d, expiry %d) should have fired but did not (partition %s)", id, t.regBlock, t.expiry, p.name)
 			node.Close()
